@@ -23,13 +23,15 @@ where
       let sctl = StreamController::new(s);
       let emitted = Arc::new(RwLock::new(false));
 
-      {
+      // prepare both observers before subscribing, so that a source completing synchronously
+      // cannot complete the whole before the target is registered
+      let obs_source = {
         let emitted = Arc::clone(&emitted);
         let sctl_next = sctl.clone();
         let sctl_error = sctl.clone();
         let sctl_complete = sctl.clone();
 
-        source.inner_subscribe(sctl.new_observer(
+        sctl.new_observer(
           move |serial, x| {
             if *emitted.read().unwrap() {
               sctl_next.upstream_abort_observe(&serial);
@@ -41,15 +43,15 @@ where
             sctl_error.sink_error(e);
           },
           move |serial| sctl_complete.sink_complete(&serial),
-        ));
+        )
       };
 
-      {
+      let obs_target = {
         let emitted = Arc::clone(&emitted);
         let sctl_next = sctl.clone();
         let sctl_error = sctl.clone();
         let sctl_complete = sctl.clone();
-        target.inner_subscribe(sctl.new_observer(
+        sctl.new_observer(
           move |_, x| {
             *emitted.write().unwrap() = true;
             sctl_next.sink_next(x);
@@ -58,8 +60,10 @@ where
             sctl_error.sink_error(e);
           },
           move |_| sctl_complete.sink_complete_force(),
-        ));
-      }
+        )
+      };
+      source.inner_subscribe(obs_source);
+      target.inner_subscribe(obs_target);
     })
   }
 }
